@@ -267,7 +267,11 @@ def h5ds_copy(src_loc, src_name, dst_loc, dst_name=None,
     dst_name = dst_name or src_name
     src = src_loc[src_name]
     if isinstance(src, h5py.Dataset):
-        if ensure_compression and not is_properly_compressed(src):
+        # Variable-length strings are never copied with h5copy, because
+        # HDF5 may segfault when copying chunked, compressed datasets of
+        # variable-length strings. They are rewritten with fixed length.
+        if ((ensure_compression and not is_properly_compressed(src))
+                or src.dtype.kind == "O"):
             # Chunk size larger than dataset size is not allowed
             # in h5py's `make_new_dset`.
             if src.shape[0] == 0:
